@@ -683,6 +683,9 @@ class Point:
                 if nm == 'conj': return a[0].conjugate()
                 if nm == 'abs2': return complex(abs(a[0]) ** 2)
                 if nm == 'log': return cmath.log(a[0])
+                if nm == 'gamma' and a[0].imag == 0: return complex(math.gamma(a[0].real))
+                if nm in ('floor', 'ceil') and a[0].imag == 0: return complex(math.floor(a[0].real) if nm == 'floor' else math.ceil(a[0].real))
+                if nm in ('max', 'min') and all(v_.imag == 0 for v_ in a): return complex((max if nm == 'max' else min)(v_.real for v_ in a))
                 key = ('fo', nm) + tuple(a)
                 if key not in self.fatom:
                     self.fatom[key] = complex(self.rng.uniform(0.3, 1.7), self.rng.uniform(0.2, 0.9))
